@@ -80,7 +80,7 @@ pub const KINDS: u64 = 12;
 /// One corpus input. `max_len` bounds generated sizes (Miri uses small ones).
 pub fn gen_input(rng: &mut Rng, kind: u64, small: bool) -> Input {
     let enc = Enc::ALL[rng.usize_below(4)];
-    let mut o = GenOpts::standard();
+    let mut o = GenOpts::unmodelled();
     o.max_syms = if small { 3 } else { 16 };
     if small {
         o.density = 3;
